@@ -16,6 +16,11 @@ CHECKS = {
         text='Exploration. Generated packages with one re-exporter per object (package or sibling module; plain, renamed, star), negative controls listed in the defining module\'s own __all__, and consumer modules that reach the object from the defining module, the re-exporting module, a module alias or both are analysed in every reachable order (<=6/24, else sampled); the object and its members must be registered exactly at the exported name, and every consumer reference must lead to that one object.',
         note='Only the single-re-exporter shape of the statement is generated; the stale-import mechanism is credited only when the problem vanishes in a re-run of the same order with that mechanism alone repaired.',
         ref='4/C07'),
+    'C08': dict(
+        technique='total-function monitor plus conservation check over hooked events: the plaintext fallback parser, the stan fallbacks and reportErrors (fatal flags) are wrapped from the harness; "gave up => reported, counted, and full original text shown in <p class=pre>"; neighbour differential against a clean system',
+        text='Exploration. A markup-fragment fuzzer (four markups, broken nesting/indentation, unknown directives, roles and fields, headings without slug, doctest indentation errors, arbitrary Unicode incl. controls and surrogates, mutated real docstrings, deep repetitions) drives format_docstring, format_summary, format_toc and flatten for eight object kinds x five docformats x process-types on/off; exceptions and confirmed CPU-budget overruns are violations; when the monitors saw the parser or renderer give up, the object must be in System.parse_errors, a counted message must exist and the page must show the complete docstring as plain text; recoverable reST problems must be reported; a control function in the same module must render as in a clean system.',
+        note='A "fatal" error means giving up for epytext only (docutils flags recovered errors as fatal too); BROKEN placeholders are legal for summary/toc/fields only; raw/include point to non-existent paths.',
+        ref='4/C08'),
     'C10': dict(
         technique='strict XML parse (expat) of every page written by the real driver + canary/control structural differential: element/attribute skeleton of the hostile run must equal that of a control run in which only the five HTML-significant characters of each planted canary are replaced',
         text='Exploration. A directed module plants unique canaries (tag/attribute/handler look-alikes, entity look-alikes, CDATA and comment delimiters, a script element) in 40+ positions where source text flows into pages (docstrings of every object kind, field bodies and field arguments, constants, defaults, string annotations, decorator arguments, base subscripts, __all__, deprecation messages) under all five docformats; generated projects carry canaries in docstrings; real packages are rendered too. Every page must be well-formed once characters illegal in XML are set aside, and no element or attribute may exist in the hostile output that the control output lacks.',
